@@ -73,6 +73,12 @@ def gen_pipelines(rng, tier):
                     cut = [max(0, n + rng.choice([-(n // 2 + 1), -8, -3, -1, 0, 0, 2, 4])) for _ in streams]
                     streams = [s[:c] for s, c in zip(streams, cut)]
                     cases.append(dict(kind='IND', name=name, ns=ns, fs=fs, streams=streams, lens=[len(s) for s in streams], equal=False))
+                # each input in turn ends well before the others (which then have to be drained while still feeding one another)
+                for idx in (range(len(kinds)) if (j == 0 or tier != 'quick') else [rng.randrange(len(kinds))]):
+                    n = rng.choice(lens[2:] or [3]) + rng.choice([8, 15, 25])
+                    streams, _, _ = make_inputs(rng, name, n)
+                    streams = [s[:max(0, n - rng.choice([6, 12, n // 2 + 1]))] if k == idx else s for k, s in enumerate(streams)]
+                    cases.append(dict(kind='IND', name=name, ns=ns, fs=fs, streams=streams, lens=[len(s) for s in streams], equal=False))
     snames = list(SCAT.keys())
     for name in snames:
         sc = SCAT[name]
@@ -419,9 +425,17 @@ def check_c09(res, tier, replay):
     if not sg.startswith('ok'):
         bad += 1
         res.violation({'problem': 'AllSplitStrategies/AllAndStrategies sharing instances, run concurrently: ' + sg[:300], 'lines': ['SHARED']})
+    race_reports = list(race_reports) + [r for r in vlib.race_reports()]
+    # reports rendered concurrently, as the first thing a fresh process does (lazy package-level initialisation races only then)
+    wr = vlib.run_go(['x1 WRITERS %d' % (3 if tier == 'quick' else 6)], race=True, env_extra=race_env, nproc=1)
+    wg_ = wr.get('x1', 'missing')
+    if not wg_.startswith('ok writers='):
+        bad += 1
+        res.violation({'problem': 'strategy reports written concurrently: ' + wg_[:300], 'lines': ['WRITERS 3']})
+    race_reports += [r for r in vlib.race_reports()]
     for rr in race_reports[:5]:
         bad += 1
-        res.violation({'problem': 'data race reported by the Go race detector', 'report': rr[:3000], 'cases': 'see report (REUSE batch)'})
+        res.violation({'problem': 'data race reported by the Go race detector', 'report': rr[:3000], 'cases': 'see report (REUSE / SHARED / WRITERS batch)'})
     rc_n, rc_bad = check_reconf(res, rng, tier, ('IND', 'STRAT', 'WRAPPED'), 'C09')
     bad += rc_bad
     res.coverage['reconfigured_after_use'] = rc_n
